@@ -121,3 +121,18 @@ func TestC01Reduce(t *testing.T) {
 	}
 	t.Logf("reduced:\n%s\n-- gofmt verdict: %s", src, GofmtStable([]byte(src)))
 }
+
+// C01_LINE=<go file> C01_LINE_OUT=<file>: writes the case line of one source file.
+func TestC01Line(t *testing.T) {
+	fn := os.Getenv("C01_LINE")
+	if fn == "" {
+		t.Skip()
+	}
+	b, _ := os.ReadFile(fn)
+	p := &c01{sum: map[string]*c01Sum{}}
+	c := p.c01Case("t", fn, b, rand.New(rand.NewSource(1)), "", genPkgNameOrStd, true)
+	if c.Meta["skip"] != nil {
+		t.Fatal(c.Meta["skip"])
+	}
+	os.WriteFile(os.Getenv("C01_LINE_OUT"), []byte(c.Hist.Sexp()+"\n"), 0644)
+}
